@@ -196,6 +196,7 @@ def _child(mod, spec, out_path, timeout, idx=0):
         if lib_ is not None and os.environ.get("VERIF_HOSTILE", "1") != "0":
             for k_ in lib_.HOSTILE:
                 lib_.HOSTILE[k_] = True
+            lib_.HOSTILE["sparse"] = isinstance(spec, dict) and spec.get("tier") == "thorough"
             acc.count("shards_run_with_hostile_decoder_neighbourhood")
         try:
             mod.run_shard(spec, acc)
